@@ -32,6 +32,16 @@ type Contract struct {
 	Inline    bool
 	Where     string
 	Props     []string
+	Defines   string   // ufunc that denotes this (pure, deterministic) function's result
+	Witness   []Clause // extra entry-state terms reported with counterexamples
+}
+
+type UFDecl struct {
+	Name   string
+	Params []string
+	Result string
+	Pkg    string
+	Where  string
 }
 
 type Pred struct {
@@ -47,6 +57,7 @@ type Immutable struct {
 }
 
 type ContractSet struct {
+	UFuncs     []UFDecl
 	Immutables []Immutable
 	Funcs  map[string]*Contract
 	Preds  map[string]*Pred
@@ -210,6 +221,36 @@ func (cs *ContractSet) loadFile(path, repo string) {
 				cs.errf("%s: duplicate contract for %s", at, cur.Key)
 			}
 			cs.Funcs[cur.Key] = cur
+		case "ufunc":
+			flush()
+			m := regexp.MustCompile(`^(\w+)\s*\(([^)]*)\)\s*(\S+)$`).FindStringSubmatch(rest)
+			if m == nil {
+				cs.errf("%s: cannot parse ufunc %q", at, rest)
+				continue
+			}
+			u := UFDecl{Name: m[1], Result: m[3], Pkg: pkg, Where: at}
+			for _, p := range strings.Split(m[2], ",") {
+				if p = strings.TrimSpace(p); p != "" {
+					u.Params = append(u.Params, p)
+				}
+			}
+			cs.UFuncs = append(cs.UFuncs, u)
+		case "defines":
+			flush()
+			if cur != nil {
+				cur.Defines = rest
+			}
+		case "witness":
+			flush()
+			lbl, ex := splitWord(rest)
+			if cur != nil {
+				e, err := parseSpec(ex)
+				if err != nil {
+					cs.errf("%s: %v", at, err)
+					continue
+				}
+				cur.Witness = append(cur.Witness, Clause{e, lbl, at})
+			}
 		case "immutable":
 			flush()
 			k, nm := splitWord(rest)
